@@ -72,22 +72,47 @@ def run(ctx):
     if not sf or sf["name"] != "wrap_in_loop":
         res.missing_anchor("syntax of wrap_in_loop")
         return res
-    # early returns
-    ms = [m for m in find_all(sf["body"], lambda n: n.get("k") == "match") if src(m["e"]) == "iterations"]
+    # early returns: decided on the MIR paths (any spelling: match / if chain): the value returned when iterations is 0 is
+    # clone_without_body_instructions(self), when it is 1 clone(self); for other values the looped program
+    from qv.rules import pathsym
     key = "K8|early-returns"
     tab = {}
-    if ms:
-        for a in ms[0]["arms"]:
-            p = a["pat"]
-            if p["k"] == "lit":
-                b = unparen(a["body"])
-                if b.get("k") == "return" and b.get("e"):
-                    b = b["e"]
-                tab[str(p["e"]["v"])] = src(b).replace(" ", "")
-    ok = "clone_without_body_instructions" in tab.get("0", "") and tab.get("1", "").endswith("self.clone()") or ("self.clone()" in tab.get("1", "") and "clone_without_body" in tab.get("0", ""))
-    res.site(key, True, {"0": tab.get("0"), "1": tab.get("1"), "verdict": "ok" if ok else "VIOLATION"})
-    if not ok:
-        res.find(key, w.loc(), "wrap_in_loop does not return clone_without_body_instructions() for 0 iterations and clone() for 1 (%s)" % tab, "wrap_in_loop(.., 1) changes the program / wrap_in_loop(.., 0) keeps the body")
+    try:
+        ps = pathsym.paths(w, limit=4000, transparent_clone=False)
+        for conds, env, blocks in ps:
+            r = env.get(0, ("undef", 0))
+            what = "other"
+            if r[0] == "call" and r[1] and r[1].endswith("::clone_without_body_instructions") and r[2] and r[2][0][0] == "param":
+                what = "clone_without_body"
+            elif (r[0] == "call" and r[1] and r[1].endswith("::clone") and r[2] and r[2][0][0] == "param" and r[2][0][2] == "self") or (r[0] == "param" and r[2] == "self"):
+                what = "clone"  # clone() is transparent in origin expressions: `self` returned by value from `&self` is its clone
+            # which values of `iterations` take this path
+            vals = None
+            for e, op, vs in conds:
+                if e[0] == "param" and e[2] == "iterations":
+                    vals = (op, sorted(vs)) if vals is None else vals
+                elif e[0] == "bin" and e[1] in ("Eq", "Ne") and any(x[0] == "param" and x[2] == "iterations" for x in (e[2], e[3])) and any(x[0] == "const" for x in (e[2], e[3])):
+                    cst = [x for x in (e[2], e[3]) if x[0] == "const"][0][1]
+                    tv = pathsym.truth_of((e, op, vs))
+                    if tv is not None and ((e[1] == "Eq") == tv):
+                        vals = ("in", [cst])
+                elif e[0] == "bin" and e[1] in ("Lt", "Le") and e[2][0] == "param" and e[2][2] == "iterations" and e[3][0] == "const":
+                    tv = pathsym.truth_of((e, op, vs))
+                    if tv:
+                        bound = e[3][1] - (1 if e[1] == "Lt" else 0)
+                        vals = ("in", list(range(0, bound + 1)))
+            if vals and vals[0] == "in":
+                for v in vals[1]:
+                    tab.setdefault(str(v), set()).add(what)
+        ok = tab.get("0") == {"clone_without_body"} and tab.get("1") == {"clone"}
+        verdict = "ok" if ok else "VIOLATION"
+    except pathsym.TooComplex as ex:
+        verdict = "undecided: %s" % ex
+        ok = True
+        res.undecided.append(key + " " + verdict)
+    res.site(key, True, {"returns_by_iterations": {k_: sorted(v) for k_, v in tab.items()}, "verdict": verdict})
+    if verdict == "VIOLATION":
+        res.find(key, w.loc(), "wrap_in_loop does not return clone_without_body_instructions() for 0 iterations and clone() for 1 (%s)" % {k_: sorted(v) for k_, v in tab.items()}, "wrap_in_loop(.., 1) changes the program / wrap_in_loop(.., 0) keeps the body")
     # the template
     calls = [c for c in find_all(sf["body"], lambda n: n.get("k") == "mcall" and n["m"] == "add_instructions")]
     if len(calls) != 1:
